@@ -31,7 +31,21 @@ pub fn item_of(v: &Value) -> Item {
     (v[0].as_u64().unwrap(), v[1].as_str().unwrap().to_string(), v[2].as_u64().unwrap())
 }
 
+/// which concrete values the model's items stand for: 0 = ordinary values, 1 = values at the edges (host prefixes /32 and /128,
+/// a key with a single octet of key information, provider AS numbers 0 and 2^32-1)
+pub static REALISATION: std::sync::atomic::AtomicUsize = std::sync::atomic::AtomicUsize::new(0);
+
 pub fn payload_of(it: &Item) -> Payload {
+    if REALISATION.load(std::sync::atomic::Ordering::SeqCst) == 1 {
+        return match it.1.as_str() {
+            "o4" => Payload::origin(MaxLenPrefix::new(Prefix::new(IpAddr::V4(Ipv4Addr::new(192, 0, 2, 1)), 32).unwrap(), None).unwrap(), Asn::from_u32(0)),
+            "o6" => Payload::origin(MaxLenPrefix::new(Prefix::new(IpAddr::V6(Ipv6Addr::from((0x2001_0db8u128 << 96) | 1)), 128).unwrap(), Some(128)).unwrap(), Asn::from_u32(u32::MAX)),
+            "k1" => Payload::router_key(KeyIdentifier::from([0xFFu8; 20]), Asn::from_u32(u32::MAX), RouterKeyInfo::try_from(vec![0x30u8]).unwrap()),
+            "c1" => Payload::aspa(Asn::from_u32(u32::MAX - 1),
+                                  ProviderAsns::try_from_iter((0..it.2).map(|i| Asn::from_u32(if i == 0 { 0 } else { u32::MAX }))).unwrap()),
+            other => panic!("unknown model item {other}"),
+        };
+    }
     match it.1.as_str() {
         "o4" => Payload::origin(
             MaxLenPrefix::new(Prefix::new(IpAddr::V4(Ipv4Addr::new(10, 0, 0, 0)), 8).unwrap(), Some(16)).unwrap(),
@@ -565,6 +579,8 @@ pub fn replay(args: &[String]) {
     let mut s = Summary::new();
     for c in &cases {
         for base in [0u32, 0xFFFF_FFFF] {
+            // the runs on the shifted serial base also use the edge realisation of the payload items
+            REALISATION.store(if base == 0 { 0 } else { 1 }, std::sync::atomic::Ordering::SeqCst);
             match guarded(|| run_behaviour(c, base)) {
                 Ok(Ok(())) => {}
                 Ok(Err((k, m))) => s.violation(&k, format!("[serial base {base:#x}] {m}"), json!({"case": c, "serial_base": base})),
